@@ -232,8 +232,18 @@ def prebuild():
     abi_build("quick", None, None)
     for pkg in ("intro", "schema", "stream", "plugin"):
         vlib.cargo_build(pkg)
-    # the separately compiled implementation of C11 (nightly, randomised layout); absent toolchain = the check says so itself
+    # the Miri builds of the C06 / C09 observers (again: an absent toolchain is reported by the checks themselves)
     import subprocess
+    menv = dict(os.environ, CARGO_NET_OFFLINE="true", MIRIFLAGS="-Zmiri-disable-isolation")
+    inputs = os.path.join(HARNESS, "miri", "src", "inputs.rs")
+    if not os.path.exists(inputs):
+        open(inputs, "w").write("pub static INPUTS: &[(&str, &[u8])] = &[];\n")
+    subprocess.run(["cargo", "+nightly", "miri", "run", "--offline"], cwd=os.path.join(HARNESS, "miri"), env=menv, stdout=subprocess.PIPE, stderr=subprocess.STDOUT)
+    empty = os.path.join(WORK, "empty.ndjson")
+    open(empty, "w").close()
+    subprocess.run(["cargo", "+nightly", "miri", "run", "--offline", "-p", "abi", "--", "calls", empty, os.path.join(WORK, "empty.out")], cwd=HARNESS,
+                   env=menv, stdout=subprocess.PIPE, stderr=subprocess.STDOUT)
+    # the separately compiled implementation of C11 (nightly, randomised layout); absent toolchain = the check says so itself
     tdir = os.environ.get("CARGO_TARGET_DIR", os.path.join(HARNESS, "target"))
     subprocess.run(["cargo", "+nightly", "build", "--offline", "-p", "plugin"], cwd=HARNESS, stdout=subprocess.PIPE, stderr=subprocess.STDOUT,
                    env=dict(os.environ, CARGO_TARGET_DIR=tdir + "_nightly_1", CARGO_NET_OFFLINE="true",
